@@ -5,8 +5,10 @@
 
 package node
 
+//@ # number of members that have not left
+//@ spec func SpecActiveCount(n Group) int
 //@ trusted func (n Group) WhereActive() (g Group)
-//@   ensures g != nil && __fresh(g)
+//@   ensures g != nil && __fresh(g) && len(g) == SpecActiveCount(n)
 //@   ensures forall k Key :: __in(g, k) == (__in(n, k) && n[k].State != StateLeft)
 //@   ensures forall k Key :: __in(g, k) ==> g[k] == n[k]
 //@   modifies nothing
